@@ -97,8 +97,8 @@ func runC07(p *core.Prog, r *core.Result) {
 		_, has := dt.Cases[k]
 		r.Check(has, "R7.1", "pickle#opcode:"+ops.name(k), p.InstrPos(e.Site), fmt.Sprintf("emitted by %s, decoded by a case of (*Decoder).decode", fname(e.Fn)), fmt.Sprintf("%s is emitted by %s but (*Decoder).decode has no case for it: such values cannot be read back", ops.name(k), fname(e.Fn)))
 	}
-	r.Floor("R7.1", len(emitted), 24, "distinct opcodes emitted by the encoder")
-	r.Floor("R7.1", len(dt.Cases), 24, "decoder cases")
+	r.Floor("R7.1", len(emitted), 12, "distinct opcodes emitted by the encoder")
+	r.Floor("R7.1", len(dt.Cases), 12, "decoder cases")
 	for _, d := range ops.dups {
 		// duplicate values among op constants are only harmful if one of them is in use
 		r.Note("R7.1", "pickle#duplicate-opcode-value:"+d, "-", "two opcode constants share a value")
@@ -238,7 +238,7 @@ func runC07(p *core.Prog, r *core.Result) {
 				fmt.Sprintf("emitted for values %v but the decoder reconstructs %s = %v: boundary values do not round-trip", iv, desc, rng))
 		}
 	}
-	r.Floor("R7.2", nPayload, 10, "fixed-width payload emissions")
+	r.Floor("R7.2", nPayload, 5, "fixed-width payload emissions")
 
 	// ---- R7.4 memo parity
 	checkMemoParity(p, r, ops, dt, memoizeE)
@@ -253,7 +253,17 @@ func runC07(p *core.Prog, r *core.Result) {
 	checkMarksAndTypes(p, r, ops, dt, ems)
 
 	// ---- R7.9 operand-stack discipline, R7.10 no aliasing of the operand stack
-	checkStackDiscipline(p, r, ops, dt, ems)
+	incomplete := false
+	for _, o := range r.Obls {
+		if o.Rule == "R7.1" && o.Status == core.Undecided && !strings.HasPrefix(o.Construct, "floor:") {
+			incomplete = true
+		}
+	}
+	if incomplete {
+		r.Unk("R7.9", "pickle#stack-discipline", "-", "not verified: some of the encoder's emissions could not be recovered (see R7.1), so the operand-stack effect of those paths is unknown")
+	} else {
+		checkStackDiscipline(p, r, ops, dt, ems)
+	}
 	checkNoStackAliasing(p, r)
 }
 
@@ -506,7 +516,7 @@ func checkMemoizeBeforeContents(p *core.Prog, r *core.Result, encode, memoizeE *
 			}
 		}
 	}
-	r.Floor("R7.5", n, 5, "container kinds with recursive encoding")
+	r.Floor("R7.5", n, 2, "container kinds with recursive encoding")
 }
 
 // inPicklerBranch: the instruction is on the nil-error edge of a Pickler.Pickle invoke.
@@ -537,7 +547,26 @@ func checkTupleOrder(p *core.Prog, r *core.Result, ops *opTable, dt *decoderTabl
 		construct := "pickle.(*Decoder).decode#case-" + name
 		pos := p.InstrPos(dc.Entry.Instrs[0])
 		if len(dc.Pops) != n {
-			r.Bad("R7.6", construct, pos, "%s pops %d value(s), expected %d", name, len(dc.Pops), n)
+			inLoop := false
+			for _, pc := range dc.Pops {
+				if core.Reaches(pc.Block(), pc.Block(), false) && pc.Block() != dt.Fn.Blocks[1] {
+					// a pop inside a loop of its own (not merely the decoder's main loop)
+					for _, b := range dc.Region {
+						if b == pc.Block() && core.Reaches(b, b, false) {
+							for _, s := range b.Succs {
+								if dc.Entry.Dominates(s) && core.Reaches(s, b, true) {
+									inLoop = true
+								}
+							}
+						}
+					}
+				}
+			}
+			if inLoop {
+				r.Unk("R7.6", construct, pos, "%s pops its operands in a loop: operand order cannot be read off statically", name)
+			} else {
+				r.Bad("R7.6", construct, pos, "%s pops %d value(s), expected %d", name, len(dc.Pops), n)
+			}
 			continue
 		}
 		// k-th pop must land at index n-1-k of the tuple literal
@@ -617,7 +646,7 @@ func checkMarksAndTypes(p *core.Prog, r *core.Result, ops *opTable, dt *decoderT
 		}
 		r.Check(!open, "R7.7", construct, p.InstrPos(m.Instr), "every path from this MARK reaches a collector opcode before another MARK or the end of the function", "a path leaves this MARK open (no TUPLE/APPENDS/SETITEMS/ADDITEMS before the next MARK or return): the decoder's stack is corrupted")
 	}
-	r.Floor("R7.7", len(marks), 5, "MARK emissions")
+	r.Floor("R7.7", len(marks), 2, "MARK emissions")
 
 	// group emissions by (function, asserted types)
 	type group struct {
@@ -715,5 +744,5 @@ func checkMarksAndTypes(p *core.Prog, r *core.Result, ops *opTable, dt *decoderT
 			r.Check(types.Identical(pt, last), "R7.8", construct, p.InstrPos(e.Site), fmt.Sprintf("%s is emitted for %s and decodes to %s", n, shortType(last), shortType(pt)), fmt.Sprintf("%s is emitted for %s but decodes to %s: the value changes type in a round trip", n, shortType(last), shortType(pt)))
 		}
 	}
-	r.Floor("R7.8", nAgree, 12, "encoder-kind / decoder-type agreements")
+	r.Floor("R7.8", nAgree, 6, "encoder-kind / decoder-type agreements")
 }
